@@ -16,6 +16,7 @@ INVARIANT TracesUntouched
 INVARIANT OneRowPerGas
 INVARIANT InvalidIffExceedsOne
 INVARIANT MuIsWeightedMean
+INVARIANT ScalarMuAtSurface
 INVARIANT ActiveSplit
 INVARIANT FitsInv
 CONSTRAINT Emit
